@@ -265,8 +265,10 @@ def run(case):
             ds = ds.items()
         ctx.armed = True
         runs = []
+        raised_in_pass = []
         for rep in range(2):
             ctx.pass_index = rep
+            mark = len(ctx.log)
             out, term, same = [], None, None
             it = iter(ds)
             try:
@@ -284,10 +286,23 @@ def run(case):
                 term = (W.exc_kind_of(e), W.norm(e.args))
                 same = any(e is r for r in ctx.raised)
             runs.append((out, term, same))
+            raised_in_pass.append([e[5] for e in ctx.log[mark:] if e[2] == 'raise'])
         fired = dict(ctx.fired)
         W.set_ctx(None)
     tag = 'items' if case['items'] else 'values'
     for rep, (out, term, same) in enumerate(runs):
+        # independent of the reference (which is built from the same stages): when
+        # every exception raised during the pass is of a selected type, the pass
+        # cannot end with an error, whatever lies between the raising stage and
+        # the catch
+        kinds_ = raised_in_pass[rep]
+        if kinds_ and caught and term not in (None, ('stopped',)) and \
+                all(issubclass(W.EXC_KINDS[k_], caught) for k_ in kinds_):
+            violations.append(hist.viol(
+                'caught_exception_escaped', 'caught_exception_escaped:%s:%s' % (tag, kinds_[0]),
+                'iteration %d: only exceptions of selected types were raised (%s), yet the '
+                'iteration ended with %s' % (rep, sorted(set(kinds_)), term)))
+            break
         expected, terminal, dropped = per_pass[rep]
         exp_out, exp_term = expected, terminal
         if term == ('stopped',):
